@@ -8,6 +8,7 @@
   The check applies this checker to the REAL compiler's bytes for every generated source.
 -/
 import Nlmodel.Proofs.Lemmas.VerifierSound
+import Nlmodel.Proofs.Lemmas.CompileVerifiable
 namespace Nl
 namespace C02
 open Verifier
@@ -83,6 +84,48 @@ theorem C02_check_sound_session (bc : Bytecode) (c : Cert) (hc : check bc c = tr
 theorem C02_verify_sound (bc : Bytecode) (hv : verify bc = true) (n : Nat) (site : String) :
     VM.run {} bc n ≠ .fault site :=
   C02_check_sound bc (inferCert bc) hv n site
+
+/-- THE COMPILER'S OUTPUT IS ALWAYS CHECKABLE: for EVERY source tree (the whole language: functions, nested
+    function literals, loops, `stop`/`volgende` under pending operands, fused instructions, everything), if the
+    resolver and the code generator accept it, the bytecode passes the checker — with an explicit certificate
+    built from the resolved tree (`CV.progCert`: owner and operand-height lower bound of every emitted
+    instruction).  Ingredients, each by mutual induction over the tree: the resolver's output is well-formed
+    (`CV.resolveProgram_wf`: local slots below the function's locals count and only inside functions,
+    `stop`/`volgende` only inside a loop of the same function, `antwoord` only inside a function); every emitted
+    instruction satisfies its rule (`CV.ckE` ..: operand heights, certified successors of the same owner, jump
+    targets of `als`/`zolang`/`stop`/`volgende`, function bodies closed by a return); every function constant
+    in the pool is the certified entry of exactly one function literal (`CV.poolE`, `CV.funE`). -/
+theorem C02_compiler_verifiable (ast : Block) (r : RBlock) (bc : Bytecode)
+    (hc : compileProgram ast = .ok (r, bc)) : ∃ c : Cert, check bc c = true :=
+  CV.compile_checkable ast r bc hc
+
+/-- THE PROPERTY ON THE MODEL, UNCONDITIONALLY: for every program the front end accepts, running it on a fresh
+    machine never reaches a fault, for any instruction budget — no pop of an empty stack, no fetch or jump
+    outside the code or off an instruction boundary, no running out of a function body, every constant,
+    local-slot and builtin number in range.  (`C02_compiler_verifiable` + `C02_check_sound`.) -/
+theorem C02_accepted_program_never_faults (ast : Block) (r : RBlock) (bc : Bytecode)
+    (hc : compileProgram ast = .ok (r, bc)) (n : Nat) (site : String) : VM.run {} bc n ≠ .fault site := by
+  obtain ⟨c, hcheck⟩ := C02_compiler_verifiable ast r bc hc
+  exact C02_check_sound bc c hcheck n site
+
+/-- the same from TEXT: whatever `evalText` (lexer, parser, resolver, code generator, machine) answers for any
+    text and any budget, it is never a fault -/
+theorem C02_eval_text_never_faults (cc : CharClass) (b : Nat) (src : Text) (site : String) :
+    evalText cc b src ≠ .fault site := by
+  unfold evalText
+  cases hp : parse cc src with
+  | error e => simp
+  | ok ast =>
+    simp only
+    cases hc : compileProgram ast with
+    | error e => simp
+    | ok rb =>
+      obtain ⟨r, bc⟩ := rb
+      simp only
+      have := C02_accepted_program_never_faults ast r bc hc b
+      cases hr : VM.run {} bc b with
+      | fault st => exact absurd hr (this st)
+      | _ => simp
 
 /-- non-vacuity: the bytecode of the program `1` (Const 0; Pop; Halt) with its certificate is accepted -/
 example : check { code := #[0, 0, 0, 1, 44], consts := [.int 1] }
